@@ -21,7 +21,7 @@ from ..vloop import ms, virtual_world
 CODES = {"ind": 0x29, "con": 0x2E, "req": 0x11}
 
 
-def frame_bytes(code, tpci, own, n):
+def frame_bytes(code, tpci, own, n, variant=None):
     from xknx.cemi import CEMIFrame, CEMILData, CEMIMessageCode
     from xknx.dpt import DPTBinary
     from xknx.telegram import GroupAddress, IndividualAddress, Telegram, apci
@@ -42,7 +42,16 @@ def frame_bytes(code, tpci, own, n):
         tg = Telegram(dst, tpci=[T.TConnect(), T.TDataIndividual(), T.TDisconnect()][n % 3],
                       payload=apci.DeviceDescriptorRead(descriptor=0) if n % 3 == 1 else None)
     cm = {"ind": CEMIMessageCode.L_DATA_IND, "con": CEMIMessageCode.L_DATA_CON, "req": CEMIMessageCode.L_DATA_REQ}[code]
-    return CEMIFrame(code=cm, data=CEMILData.init_from_telegram(tg, src_addr=IndividualAddress("1.1.9"))).to_knx()
+    data = CEMILData.init_from_telegram(tg, src_addr=IndividualAddress("1.1.9"))
+    # legal but unusual control fields: a negative confirmation (error bit), low priority with repetition and acknowledge request, hop count 0
+    if variant == "neg":
+        data.flags.confirm_error = True
+    elif variant == "low":
+        from xknx.cemi import CEMIPriority  # noqa: PLC0415
+        data.flags.priority, data.flags.repeat_on_error, data.flags.acknowledge_request = CEMIPriority.LOW, False, True
+    elif variant == "hop0":
+        data.flags.hop_count = 0
+    return CEMIFrame(code=cm, data=data).to_knx()
 
 
 def run_hist(script, seed=0):
@@ -79,8 +88,8 @@ def run_hist(script, seed=0):
             patcher.start()
             plan = {}
 
-            def rx(code, tpci, own, n=0):
-                raw = frame_bytes(code, tpci, own, n)
+            def rx(code, tpci, own, n=0, variant=None):
+                raw = frame_bytes(code, tpci, own, n, variant)
                 q0, m0 = xknx.telegrams.qsize(), len(mgmt)
                 raised = 0
                 try:
@@ -122,7 +131,7 @@ def run_hist(script, seed=0):
             for t, act in sorted(script, key=lambda x: x[0]):
                 n += 1
                 if act[0] == "rx":
-                    loop.call_at(t / 1000, loop.inject, rx, act[1], act[2], act[3], n)
+                    loop.call_at(t / 1000, loop.inject, rx, act[1], act[2], act[3], n, act[4] if len(act) > 4 else None)
                 else:
                     plan[act[1]] = (act[2], act[3], act[4])
                     loop.call_at(t / 1000, lambda i=act[1]: tasks.append(loop.create_task(sender(i))))
@@ -143,6 +152,8 @@ def plans(ck):
     # receive side: every frame kind, alone
     for code, tpci, own in itertools.product(("ind", "con", "req", "other", "unknown"), ("group", "taggroup", "broadcast", "p2p"), (0, 1)):
         out.append([(0, ("rx", code, tpci, own)), (10, ("rx", code, tpci, own)), (20, ("rx", "ind", "group", 0))])
+    for code, tpci, own, var in itertools.product(("ind", "con", "req"), ("group", "taggroup", "broadcast", "p2p"), (0, 1), ("neg", "low", "hop0")):
+        out.append([(0, ("rx", code, tpci, own, var)), (10, ("rx", code, tpci, own, var)), (20, ("rx", "ind", "group", 0))])
     # send side: one sender, confirmation before / at / after the interface call returns, twice, never; interface slow or raising
     cons = ([], [0], [1], [500], [2999], [3001], [0, 0], [100, 200], [4000])
     for iface, outcome, con_at in itertools.product((0, 700, 2000), ("ok", "raise"), cons):
@@ -160,7 +171,8 @@ def plans(ck):
                 s.append((t, ("send", i + 1, rnd.choice([0, 0, 300, 2500]), rnd.choice(["ok", "ok", "ok", "raise"]),
                               rnd.choice([[], [0], [5], [400], [2990], [3100], [0, 1], [3500]]))))
             else:
-                s.append((t, ("rx", rnd.choice(["ind", "con", "con", "req", "other"]), rnd.choice(["group", "taggroup", "broadcast", "p2p"]), rnd.randrange(2))))
+                s.append((t, ("rx", rnd.choice(["ind", "con", "con", "req", "other"]), rnd.choice(["group", "taggroup", "broadcast", "p2p"]), rnd.randrange(2),
+                              rnd.choice([None, None, "neg", "low", "hop0"]))))
         out.append(s)
     return out
 
